@@ -128,17 +128,23 @@ def idc_star(
                 f"\t[{_number_recursions}]: line 4 IDC* algorithm: rule 2 of do calculus applies:\n\t\t{outcomes} "
                 f"""is D-separated from {condition} in G{"'" * (_number_recursions + 1)} ({condition}_bar)"""
             )
+            remaining_conditions = {k: v for k, v in new_conditions.items() if k != condition}
             exchanged_outcomes: Event = {}
             for outcome, value in new_outcomes.items():
                 if condition in cf_graph.ancestors_inclusive(outcome):
                     outcome = outcome.intervene(new_conditions[condition])
-                if exchanged_outcomes.get(outcome, value) != value:
+                if (
+                    exchanged_outcomes.get(outcome, value) != value
+                    or remaining_conditions.get(outcome, value) != value
+                ):
                     # two outcomes have become the same counterfactual variable but are
-                    # required to attain different values, so the event is inconsistent
+                    # required to attain different values, or an outcome has become a
+                    # remaining condition's variable with a different value, so the
+                    # event is inconsistent
                     return Zero()
                 exchanged_outcomes[outcome] = value
             new_outcomes = exchanged_outcomes
-            new_conditions = {k: v for k, v in new_conditions.items() if k != condition}
+            new_conditions = remaining_conditions
             logger.debug(
                 f"\t[{_number_recursions}]: line 4 IDC* algorithm: call IDC* algorithm on new outcomes {new_outcomes} "
                 f"and new conditions {new_conditions}"
